@@ -207,3 +207,48 @@ func VerifC10_PingPongStreamLayer() {
 	VerifC09_PingPongStreamLayer()
 	verif.Cover("c10")
 }
+
+// VerifC09_PingPongPoolClose: the ping-pong pool holding one idle connection (a request
+// was answered and its connection went back to the pool) is closed or shut down. The call
+// comes back - it does not block on the pool's own lock -; after Close the connection is
+// closed, gone from the pool, and the connection counters are back to zero.
+func VerifC09_PingPongPoolClose() {
+	xprotocol.RegisterXProtocolAction(NewConnPool, NewStreamFactory, func(api.XProtocolCodec) {})
+	_ = xprotocol.RegisterXProtocolCodec(&bolt.XCodec{})
+	info := &zzPInfo{rm: cluster.NewResourceManager(v2.CircuitBreakers{}), st: zzPClusterStats()}
+	host := &zzLHost{zzPHost: zzPHost{info: info, hs: zzPHostStats()}}
+	base := &connpool{protocol: bolt.ProtocolName, codec: zzNoHBCodec{&bolt.XCodec{}}}
+	base.host.Store(types.Host(host))
+	pool := NewPoolPingPong(base).(*poolPingPong)
+	ctx := zzStreamCtx()
+	rcv := &zzLRecv{}
+	_, sender, _ := pool.NewStream(ctx, rcv)
+	verif.Assert(sender != nil && len(host.conns) == 1, "the pool did not open a connection for the first request")
+	if sender == nil {
+		return
+	}
+	req := bolt.NewRpcRequest(0, zzHdr{"service": "s"}, buffer.NewIoBufferBytes([]byte("b")))
+	verif.Assert(sender.AppendHeaders(ctx, req, true) == nil, "request not sent")
+	resp := bolt.NewRpcResponse(uint32(sender.GetStream().ID()), bolt.ResponseStatusSuccess, zzHdr{"k": "v"}, buffer.NewIoBufferBytes([]byte("r")))
+	enc, err := (&bolt.XCodec{}).NewXProtocol(ctx).Encode(zzStreamCtx(), resp)
+	verif.Assume(err == nil)
+	rb := buffer.NewIoBuffer(16)
+	rb.Write(enc.Bytes())
+	for _, f := range host.conns[0].filters {
+		f.OnData(rb)
+	}
+	verif.Assert(rcv.replies == 1 && len(pool.idleClients) == 1, "the answered request's connection did not return to the pool")
+	closing := verif.Choose("close_instead_of_shutdown", 2) == 1
+	verif.MustFinish(200000, "closing (or shutting down) a ping-pong pool that holds an idle connection never returns: it blocks on the pool's own lock")
+	if closing {
+		pool.Close()
+	} else {
+		pool.Shutdown()
+	}
+	verif.Finished()
+	if closing {
+		verif.Assert(host.conns[0].closed && len(pool.idleClients) == 0, "Close left the pool's connection open or in the pool")
+		verif.Assert(pool.totalClientCount.Load() == 0 && host.hs.UpstreamConnectionActive.Count() == 0, "connection counters differ from the number of open connections after Close")
+	}
+	verif.Cover("end")
+}
